@@ -24,17 +24,29 @@ var (
 	fzPool   = cfg.NewPool()
 	fzGroups = map[string]*c10Group{}
 	fzC12    *c12State
-	fzAll    = cfg.All()
-	fzSafe   = cfg.Safe()
-	fzPSide  = cfg.ParserSide()
+	fzAll    = append(cfg.All(), cfg.RichSpecs()...)
+	fzSafe   = append(cfg.Safe(), richSafe()...)
+	fzPSide  = append(cfg.ParserSide(), richSafe()...)
 	fzC08    = c08Specs()
 	fzC15    = c15Specs()
 	fzC16    = c16Specs()
 	fzC17    = c17Specs()
 	fzC12Sp  = []cfg.Spec{{Ext: cfg.ExtCore}, {Ext: cfg.ExtCore, AutoHeadingID: true, Attribute: true}, {Ext: cfg.ExtGFM}, {Ext: cfg.ExtGFM, Attribute: true, XHTML: true},
 		{Ext: cfg.ExtAll, AutoHeadingID: true, Attribute: true}, {Ext: cfg.ExtAll, Unsafe: true, HardWraps: true}, {Ext: cfg.ExtFootnote}, {Ext: cfg.ExtDefList, Attribute: true},
-		{Ext: cfg.ExtTypographer}, {Ext: cfg.ExtCJKSimple}, {Ext: cfg.ExtCJKCSS3, XHTML: true}, {Ext: cfg.ExtCJKEscSpace, AutoHeadingID: true}}
+		{Ext: cfg.ExtTypographer}, {Ext: cfg.ExtCJKSimple}, {Ext: cfg.ExtCJKCSS3, XHTML: true}, {Ext: cfg.ExtCJKEscSpace, AutoHeadingID: true},
+		{Ext: cfg.ExtAll, Rich: true, AutoHeadingID: true, Attribute: true}, {Ext: cfg.ExtGFM, Rich: true, Unsafe: true, XHTML: true}}
 )
+
+// richSafe: the safe-mode configurations whose extensions carry non-default options.
+func richSafe() []cfg.Spec {
+	var out []cfg.Spec
+	for _, s := range cfg.RichSpecs() {
+		if !s.Unsafe {
+			out = append(out, s)
+		}
+	}
+	return out
+}
 
 // FuzzServes reports whether the engine serves the property.
 func FuzzServes(id string) bool {
